@@ -44,6 +44,41 @@ def first_tick(out, day_shift=0):
     return int(sec // TICK) if sec % TICK == 0 else -7777
 
 
+def _refined(ctx, dutils, c, case, k=300):
+    """Scale law of Var2h.tla: extra records ON the piecewise-linear interpolant (k per interval, every 2 s per tick) change neither
+    the interpolant nor the validity of any instant - intervals longer than maxgap or with a missing or negative end are left as they are -
+    so the period values are those of the sparse record: hundreds of records per period, long runs of identical values."""
+    ts, vs = c["ts"], [np.nan if v == NAN else float(v) for v in c["vs"]]
+    secs, vals = [ts[0] * TICK], [vs[0]]
+    for (t1, v1), (t2, v2) in zip(zip(ts, vs), zip(ts[1:], vs[1:])):
+        if t2 - t1 <= c["maxgap"] and not (np.isnan(v1) or np.isnan(v2)) and t2 > t1 and v1 >= 0 and v2 >= 0:
+            step = (t2 - t1) * TICK // k
+            for j in range(1, k):
+                secs.append(t1 * TICK + j * step)
+                vals.append(v1 + (v2 - v1) * (j * step) / ((t2 - t1) * TICK))
+        secs.append(t2 * TICK)
+        vals.append(v2)
+    if len(secs) < 250:
+        return
+    se = pd.Series(np.array(vals), index=pd.DatetimeIndex([BASE + pd.Timedelta(seconds=int(x)) for x in secs]))
+    try:
+        out = call(dutils, se, c["P"], c["rain"], c["maxgap"])
+    except Exception as e:
+        ctx.violation("var2h:dense-record:exception", repr(e), dict(case, records=len(secs)))
+        return
+    if len(out) != c["nvalh"] or first_tick(out) != c["hstart"]:
+        ctx.violation("var2h:dense-record:periods", "%d periods from %s, expected %d" % (len(out), out.index[0], c["nvalh"]), dict(case, records=len(secs)))
+        return
+    for p, e in enumerate(c["exp"]):
+        if e == FREE:
+            continue
+        if not rat_close(out.values[p], e):
+            what = "missing-flag" if (e[1] == 0) != bool(np.isnan(out.values[p])) else "period-average"
+            ctx.violation("var2h:dense-record:" + what, "period %d: got %r expected %s for the record refined to %d values on its own interpolant" %
+                          (p, float(out.values[p]), e, len(secs)), dict(case, records=len(secs), got=[None if np.isnan(v) else float(v) for v in out.values], expected=c["exp"]))
+            return
+
+
 def spec_to_code(ctx, dutils):
     res = ctx.tlc("Var2hDump", "MC_Var2h_%s.cfg" % ctx.tier, workers=16, timeout=3000, heap="8g")
     if res.violated:
@@ -82,6 +117,8 @@ def spec_to_code(ctx, dutils):
                 break
         if not (np.array_equal(se.values, v0, equal_nan=True) and se.index.equals(i0)):
             ctx.violation("var2h:argument-modified", "series changed by the call", case)
+        if n % 6 == 0 and not c["rain"]:
+            _refined(ctx, dutils, c, case)
         constrained = sum(1 for e in c["exp"] if e != FREE)
         ctx.count(case, constrained >= 1)
         if n % 5003 == 0:
